@@ -11,8 +11,8 @@ import (
 
 func init() {
 	register(&PropDef{
-		ID:       "C08",
-		Patterns: []string{"./data", "./node"},
+		ID:          "C08",
+		Patterns:    []string{"./data", "./node"},
 		Explanation: "The subtype relation is recomputed by separate code for class values, $this values, thrown values and for instanceof. Whether each returns the right answer on every graph is value-level; what is structural is whether each implementation consults every kind of edge. (EDGES) For each decision entry point the closure over same-package calls must (a) read the extends edge (GetExtend), (b) read the implements edges of ancestors as well — a GetImplements call inside a loop or recursive function that also advances along GetExtend — and (c) follow interface parents with a worklist or recursion (GetExtends inside a loop or a recursive function). An implementation that never reads an edge kind cannot honour it. (LOOKUP) ClassValue.GetMethod tries the runtime class first and then walks GetExtend upwards in a loop that re-reads GetExtend of the class just loaded. (LIKE) the structural test iterates all methods the target declares, compares parameter counts, and looks methods up through an inheriting provider (not the class statement's own table). Necessary conditions only: a wrong comparison inside a walk is invisible to them; parent::/self::/static:: resolution depends on runtime context objects and is not decided.",
 		Assumptions: []string{
 			"decision entry points: data.(Class).Is, data.isClassValueInstanceOf, data.extendISClass, node.checkClassIs",
